@@ -22,7 +22,10 @@ if [ -s "$OUT/rnacos-lib.json" ] && [ -s "$OUT/rnacos-bin.json" ] && [ -f "$OUT/
   echo "$OUT"; exit 0
 fi
 
-exec 9>"$CACHE/extract.lock"
+# RNFACTS_LANE=<n>: an independent target directory and lock, so that several scratch copies can be extracted at the same time
+# (regression runs over the seeded / refactoring corpora); the registered checks never set it
+LANE="${RNFACTS_LANE:-}"
+exec 9>"$CACHE/extract${LANE:+-lane$LANE}.lock"
 flock 9
 if [ -s "$OUT/rnacos-lib.json" ] && [ -s "$OUT/rnacos-bin.json" ] && [ -f "$OUT/.ok" ]; then
   echo "$OUT"; exit 0
@@ -30,7 +33,8 @@ fi
 rm -rf "$OUT"; mkdir -p "$OUT"
 # target dir: the shared one for /repo, a per-copy one for scratch copies (dependency artefacts are shared via the same dir
 # because cargo fingerprints path dependencies by absolute path only for workspace members)
-TGT="$CACHE/target"
+TGT="$CACHE/target${LANE:+-lane$LANE}"
+if [ -n "$LANE" ] && [ ! -d "$TGT" ] && [ -d "$CACHE/target" ]; then cp -a "$CACHE/target" "$TGT"; fi
 # force the wrapper to run for the workspace member even on a warm target dir
 rm -rf "$TGT"/debug/.fingerprint/rnacos-* 2>/dev/null || true
 FEAT_ARGS=()
@@ -50,5 +54,5 @@ if [ ! -s "$OUT/rnacos-lib.json" ] || [ ! -s "$OUT/rnacos-bin.json" ]; then
 fi
 touch "$OUT/.ok"
 # keep the cache small: drop all but the 6 most recent fact dirs
-ls -1dt "$CACHE"/facts/*/ 2>/dev/null | tail -n +7 | xargs -r rm -rf
+ls -1dt "$CACHE"/facts/*/ 2>/dev/null | tail -n +$([ -n "$LANE" ] && echo 40 || echo 7) | xargs -r rm -rf
 echo "$OUT"
